@@ -261,6 +261,17 @@ func ruleFeatures(f featureSet, rs []Rule, where string, fine bool) {
 			continue
 		}
 		preludeFeatures(f, r.Pre, fine)
+		if strings.Contains(r.Pre, ":before") || strings.Contains(r.Pre, ":after") || strings.Contains(r.Pre, "::marker") {
+			// generated content: boxes re-created at layout time when the content uses page-based counters
+			for _, d := range r.Decls {
+				switch {
+				case d.N == "display" && d.V != "inline" && d.V != "inline flow":
+					f.add("pseudo:display")
+				case d.N == "content" && (strings.Contains(d.V, "counter(") || strings.Contains(d.V, "counters(") || strings.Contains(d.V, "target-")):
+					f.add("pseudo:content-counter")
+				}
+			}
+		}
 		w := where
 		if strings.HasPrefix(strings.TrimSpace(r.Pre), "@") {
 			w = strings.ToLower(strings.Fields(strings.TrimSpace(r.Pre) + " ")[0])
